@@ -166,11 +166,13 @@ GLOBAL_AXES = [("globals", "docstrings", False), ("globals", "embed_pos_in_docst
 CLI_GLOBALS = {"docstrings", "embed_pos_in_docstring", "generate_cleanup_code", "embed", "pre_import", "warning_errors"}
 CLI_OPTIONS = {"emit_linenums", "c_line_in_traceback", "compile_time_env", "annotate"}
 
-SKIP_DIRECTIVES = {"language_level", "nogil", "gil", "with_gil", "callspec", "np_pythran", "formal_grammar",
+# set_initial_path embeds the ABSOLUTE directory of the source file in the C code: the output then depends on where the
+# project lives, which breaks the "same inputs in a fresh directory" oracle without any cache being involved
+SKIP_DIRECTIVES = {"set_initial_path", "language_level", "nogil", "gil", "with_gil", "callspec", "np_pythran", "formal_grammar",
                    "control_flow.dot_output", "control_flow.dot_annotate_defs", "preliminary_late_includes_cy28",
                    "py2_import", "warn", "test_body_needs_exception_handling"}
 DIRECTIVE_VALUES = {
-    "cpow": [True], "auto_pickle": [False], "infer_types": [True, False], "set_initial_path": ["SOURCEFILE"],
+    "cpow": [True], "auto_pickle": [False], "infer_types": [True, False],
     "subinterpreters_compatible": ["shared_gil", "own_gil"], "embedsignature.format": ["python", "clinic"],
     "c_string_type": ["str", "bytearray"], "c_string_encoding": ["ascii", "utf8"], "c_compile_guard": ["MY_GUARD"],
 }
